@@ -122,8 +122,14 @@ category that has a limit -/
 theorem scalar_nan_rejected_when_limited (g : Reg) {c : CatInfo} (unit : Sym) (this : UnitRow)
     (hl : c.limited = true) : checkValue g (.simple c unit this) .nan ≠ .ok () := by
   rw [checkValue_simple hl]
-  have hap : ∀ m : Mob, m.applyV .nan = .ok .nan := by
-    intro m; simp [Mob.applyV, Val.mul, Val.add, Val.div]
+  have hap : ∀ m : Mob, m.applyV .nan = .ok .nan ∨ ∃ e, m.applyV .nan = .error e := by
+    intro m
+    unfold Mob.applyV
+    by_cases hs : m.s = 0
+    · by_cases hr : m.r = 0
+      · exact Or.inr ⟨.other, by simp [hs, hr, Val.mul, Val.add, Val.div]⟩
+      · exact Or.inl (by simp [hs, hr, Val.mul, Val.add, Val.div])
+    · exact Or.inl (by simp [hs, Val.mul, Val.add, Val.div])
   have : convToDefault g c unit this .nan = .ok .nan ∨ ∃ e, convToDefault g c unit this .nan = .error e := by
     unfold convToDefault
     split
@@ -134,7 +140,16 @@ theorem scalar_nan_rejected_when_limited (g : Reg) {c : CatInfo} (unit : Sym) (t
         unfold convRowsV toBaseV fromBaseV
         split
         · exact Or.inr ⟨_, rfl⟩
-        · cases this.hasConvTo <;> cases other.hasConvFrom <;> simp [hap]
+        · cases this.hasConvTo <;> cases other.hasConvFrom <;>
+            simp only [↓reduceIte, Bool.false_eq_true]
+          · exact Or.inl trivial
+          · exact hap _
+          · rcases hap this.toBase with h | ⟨e, h⟩ <;> rw [h]
+            · first | exact Or.inl rfl | exact Or.inl trivial
+            · exact Or.inr ⟨e, rfl⟩
+          · rcases hap this.toBase with h | ⟨e, h⟩ <;> rw [h]
+            · exact hap _
+            · exact Or.inr ⟨e, rfl⟩
   rcases this with h | ⟨e, h⟩
   · rw [h]; exact checkLimits_nan hl
   · rw [h]; intro hh; cases hh
@@ -356,31 +371,27 @@ theorem isValid_iff_check (g : Reg) {c : CatInfo} (unit : Sym) (this : UnitRow) 
 
 /-! ### the unit the amount is written in -/
 
-/- Full-strength statement (NOT provable, see the counterexample below):
+/-- an amount written in the first unit, rewritten in the second: `convVal r1 r2` (the exact
+conversion of C01) on finite amounts; an infinity stays that infinity (every conversion is increasing),
+NaN stays NaN -/
+def rewriteIn (r1 r2 : UnitRow) : Val → Val := liftV (convVal r1 r2)
 
-  theorem valid_unit_invariant … (v : Val) :
-      checkValue g (.simple c u1 r1) v = checkValue g (.simple c u2 r2) (v converted from u1 to u2)
-
-for every value including the infinities.  The code converts through `(a + b*x) / (c + d*x)` with
-`d = 0.0`, and `0.0 * inf = nan`: an infinite amount written in a non-default unit reaches the limit
-check as NaN and is rejected, while the same infinite amount written in the default unit is compared
-as an infinity.  Proved: the statement for all FINITE amounts (below), and that the failure for the
-infinities is exactly this one (`nonfinite_in_formula_unit_rejected`). -/
-
-/-- **physically equal finite amounts get the same answer, whatever the units they are written
-in** (same verdict and, when rejected, the same operator, limit and reported amount); `convVal r1 r2 x`
-is the exact conversion of C01 from the first unit to the second -/
-theorem valid_unit_invariant_partial {g : Reg} (hg : RowsOK g.units) {c : CatInfo} {u1 u2 : Sym}
+/-- **physically equal amounts get the same answer, whatever the units they are written in** — for ALL
+values, the infinities and NaN included: same verdict and, when rejected, the same operator, limit and
+reported amount -/
+theorem valid_unit_invariant {g : Reg} (hg : RowsOK g.units) {c : CatInfo} {u1 u2 : Sym}
     {r1 r2 : UnitRow} (h1 : g.db.getInfo c.qtype u1 true = .ok r1)
-    (h2 : g.db.getInfo c.qtype u2 true = .ok r2) (x : Rat) :
-    checkValue g (.simple c u1 r1) (.fin x) = checkValue g (.simple c u2 r2) (.fin (convVal r1 r2 x)) := by
+    (h2 : g.db.getInfo c.qtype u2 true = .ok r2) (v : Val) :
+    checkValue g (.simple c u1 r1) v = checkValue g (.simple c u2 r2) (rewriteIn r1 r2 v) := by
   cases hl : c.limited with
   | false => rw [checkValue_unlimited _ _ _ _ hl, checkValue_unlimited _ _ _ _ hl]
   | true =>
     rw [checkValue_simple hl, checkValue_simple hl]
     obtain ⟨w1, s1⟩ := hg r1 (Db.getInfo_mem h1)
     obtain ⟨w2, s2⟩ := hg r2 (Db.getInfo_mem h2)
-    have key : convToDefault g c u1 r1 (.fin x) = convToDefault g c u2 r2 (.fin (convVal r1 r2 x)) := by
+    have fin_case : ∀ x, convToDefault g c u1 r1 (.fin x)
+        = convToDefault g c u2 r2 (.fin (convVal r1 r2 x)) := by
+      intro x
       unfold convToDefault
       cases e1 : u1 == c.defaultUnit <;> cases e2 : u2 == c.defaultUnit <;>
         simp only [Bool.false_eq_true, ↓reduceIte]
@@ -406,14 +417,42 @@ theorem valid_unit_invariant_partial {g : Reg} (hg : RowsOK g.units) {c : CatInf
         rw [a2, h1] at h2
         cases h2
         rw [convVal_self w1]
+    have nf_case : ∀ w : Val, (∀ x, w ≠ .fin x) →
+        convToDefault g c u1 r1 w = convToDefault g c u2 r2 w := by
+      intro w hw
+      unfold convToDefault
+      cases e1 : u1 == c.defaultUnit <;> cases e2 : u2 == c.defaultUnit <;>
+        simp only [Bool.false_eq_true, ↓reduceIte]
+      · cases hd : g.db.getInfo c.qtype c.defaultUnit true with
+        | error e => rfl
+        | ok other =>
+          obtain ⟨wo, _⟩ := hg other (Db.getInfo_mem hd)
+          simp only
+          rw [convRowsV_nonfinite w1 wo hw, convRowsV_nonfinite w2 wo hw]
+      · have : u2 = c.defaultUnit := by simpa using e2
+        subst this
+        rw [h2]
+        simp only
+        rw [convRowsV_nonfinite w1 w2 hw]
+      · have : u1 = c.defaultUnit := by simpa using e1
+        subst this
+        rw [h1]
+        simp only
+        rw [convRowsV_nonfinite w2 w1 hw]
+    have key : convToDefault g c u1 r1 v = convToDefault g c u2 r2 (rewriteIn r1 r2 v) := by
+      cases v with
+      | fin x => exact fin_case x
+      | posInf => exact nf_case _ (by intro x h; cases h)
+      | negInf => exact nf_case _ (by intro x h; cases h)
+      | nan => exact nf_case _ (by intro x h; cases h)
     rw [key]
 
 /-- the same for the verdict of `IsValid` of two Scalars -/
 theorem scalar_isValid_unit_invariant {g : Reg} (hg : RowsOK g.units) {c : CatInfo} {u1 u2 : Sym}
     {r1 r2 : UnitRow} (h1 : g.db.getInfo c.qtype u1 true = .ok r1)
-    (h2 : g.db.getInfo c.qtype u2 true = .ok r2) (x : Rat) :
-    (isValid g (.simple c u1 r1) (.scalar (.fin x))).2
-      = (isValid g (.simple c u2 r2) (.scalar (.fin (convVal r1 r2 x)))).2 := by
+    (h2 : g.db.getInfo c.qtype u2 true = .ok r2) (v : Val) :
+    (isValid g (.simple c u1 r1) (.scalar v)).2
+      = (isValid g (.simple c u2 r2) (.scalar (rewriteIn r1 r2 v))).2 := by
   have key : ∀ (u : Sym) (r : UnitRow) (v : Val), (isValid g (.simple c u r) (.scalar v)).2 =
       (match checkValue g (.simple c u r) v with
        | .ok _ => .ok true
@@ -423,43 +462,28 @@ theorem scalar_isValid_unit_invariant {g : Reg} (hg : RowsOK g.units) {c : CatIn
     cases checkValue g (.simple c u r) v with
     | ok _ => rfl
     | error e => cases he : e.isValueError <;> simp [he]
-  rw [key, key, valid_unit_invariant_partial hg h1 h2 x]
+  rw [key, key, valid_unit_invariant hg h1 h2 v]
 
-/-- how the infinities behave: written in a unit whose conversion to the default unit evaluates a
-formula, a non-finite value is never accepted by a limited category -/
-theorem nonfinite_in_formula_unit_rejected {g : Reg} (hg : RowsOK g.units) {c : CatInfo} {unit : Sym}
-    {this other : UnitRow} (ht : this ∈ g.units) (hl : c.limited = true)
-    (hu : (unit == c.defaultUnit) = false) (hd : g.db.getInfo c.qtype c.defaultUnit true = .ok other)
-    (hf : (this.hasConvTo || other.hasConvFrom) = true) {v : Val} (hv : ∀ x, v ≠ .fin x) :
-    ∃ op m, checkValue g (.simple c unit this) v = .error (.validation op m .nan) := by
+/-- **an infinite amount is judged as an infinity in every unit**: accepted exactly when no limit
+lies on its side — in the default unit and in any other unit of the type alike -/
+theorem infinity_any_unit {g : Reg} (hg : RowsOK g.units) {c : CatInfo} {unit : Sym} {this other : UnitRow}
+    (ht : this ∈ g.units) (hl : c.limited = true)
+    (hd : g.db.getInfo c.qtype c.defaultUnit true = .ok other) :
+    (checkValue g (.simple c unit this) .posInf = .ok () ↔ c.maxV = none)
+    ∧ (checkValue g (.simple c unit this) .negInf = .ok () ↔ c.minV = none) := by
   obtain ⟨wt, _⟩ := hg this ht
   obtain ⟨wo, _⟩ := hg other (Db.getInfo_mem hd)
-  rw [checkValue_simple hl]
-  simp only [convToDefault, hu, Bool.false_eq_true, ↓reduceIte, hd, convRowsV_nonfinite wt wo hv, hf]
-  unfold checkLimits
-  cases h1 : checkMin c .nan with
-  | error e =>
-    obtain ⟨m, _, hcase⟩ := checkMin_error h1
-    rcases hcase with ⟨_, he, _⟩ | ⟨_, he, _⟩ <;> exact ⟨_, m, by rw [he]⟩
-  | ok u =>
-    simp only
-    cases h2 : checkMax c .nan with
-    | error e =>
-      obtain ⟨m, _, hcase⟩ := checkMax_error h2
-      rcases hcase with ⟨_, he, _⟩ | ⟨_, he, _⟩ <;> exact ⟨_, m, by rw [he]⟩
-    | ok u' =>
-      exfalso
-      apply checkLimits_nan hl
-      rw [checkLimits_ok_iff]; cases u; cases u'; exact ⟨h1, h2⟩
-
-/-- … and written in the default unit an infinity is compared as an infinity (accepted iff no
-limit lies on its side) -/
-theorem infinity_in_default_unit (g : Reg) {c : CatInfo} (this : UnitRow) (hl : c.limited = true) :
-    (checkValue g (.simple c c.defaultUnit this) .posInf = .ok () ↔ c.maxV = none)
-    ∧ (checkValue g (.simple c c.defaultUnit this) .negInf = .ok () ↔ c.minV = none) := by
-  constructor <;>
-  · rw [checkValue_spec g _ _ _ hl]
-    simp [convToDefault, Sat]
+  have conv : ∀ w : Val, (∀ x, w ≠ .fin x) → convToDefault g c unit this w = .ok w := by
+    intro w hw
+    unfold convToDefault
+    split
+    · rfl
+    · rw [hd]; simp only; exact convRowsV_nonfinite wt wo hw
+  constructor
+  · rw [checkValue_spec g _ _ _ hl, conv _ (by intro x h; cases h)]
+    simp [Sat]
+  · rw [checkValue_spec g _ _ _ hl, conv _ (by intro x h; cases h)]
+    simp [Sat]
 
 /-! ### `AddCategory` -/
 
@@ -827,12 +851,12 @@ example : (addCategory reg0 argsMin).toOption.map (·.2) = some catMin := by dec
 
 end Example
 
-/-- the failure of the full-strength unit invariance on the infinities, on a concrete witness:
-with `min_value = 0` in metres, `+inf` written in `m` is accepted and `+inf` written in `cm` is
-rejected (reported amount: NaN) -/
-theorem valid_unit_invariant_counterexample :
-    Example.checkMinOnly Example.m .posInf = some none
-    ∧ Example.checkMinOnly Example.cm .posInf = some (some (.validation .ge 0 .nan)) := by
+-- infinities are judged alike in the default unit and in any other unit (min_value = 0 in metres)
+example : Example.checkMinOnly Example.m .posInf = some none := by decide +kernel
+example : Example.checkMinOnly Example.cm .posInf = some none := by decide +kernel
+example : Example.checkMinOnly Example.cm .negInf = some (some (.validation .ge 0 .negInf)) := by
+  decide +kernel
+example : Example.check Example.km .posInf = some (some (.validation .lt 2000 .posInf)) := by
   decide +kernel
 
 end Barril.Valid
